@@ -72,6 +72,25 @@ func checkEngineInvariants(r *Run, prog *Program, pfx string) {
 	ps2 := NewPathSim(prog)
 	ps2.NoTables = true // the error variable is recognised by its name: its load stays symbolic
 	okR, sawErr := true, false
+	okPolarity, sawPolarity := true, false
+	allowF := ""
+	if m, ok := prog.GrammarSSA.Members["AllowInvalidUTF8"].(*ssa.Function); ok {
+		for _, af := range m.AnonFuncs {
+			for _, b := range af.Blocks {
+				for _, ins := range b.Instrs {
+					if st, isSt := ins.(*ssa.Store); isSt {
+						if fa, isFA := st.Addr.(*ssa.FieldAddr); isFA {
+							if root, _ := rootOf(st.Val); root != nil {
+								if _, isFV := root.(*ssa.FreeVar); isFV {
+									allowF = fieldName(fa.X.Type(), fa.Field)
+								}
+							}
+						}
+					}
+				}
+			}
+		}
+	}
 	for _, sm := range ps2.Run(rd) {
 		var dec *Event
 		reported := false
@@ -103,7 +122,19 @@ func checkEngineInvariants(r *Run, prog *Program, pfx string) {
 				okR = false
 			}
 		}
+		// … and then it does, unless the caller asked for invalid encodings to be let through (the field the
+		// AllowInvalidUTF8 option stores its argument in)
+		if allowF != "" && k1 && isErrRune && k2 && isW1 {
+			if allowed, known := evalBool(sm.St, loadField(paramSym(rd.Params[0]), allowF)); known {
+				sawPolarity = true
+				if reported == allowed {
+					okPolarity = false
+				}
+			}
+		}
 	}
+	r.Check(pfx+".engine", "read-invalid-encoding-unless-allowed", prog.pos(rd.Pos()), allowF != "" && okPolarity && sawPolarity,
+		"(*parser).read must record errInvalidEncoding for an invalid byte exactly when the AllowInvalidUTF8 option is off (option field: "+allowF+")")
 	checkRuneErrorWidth(r, prog, pfx)
 	checkErrorRecording(r, prog, pfx)
 	checkRuleRefAndClasses(r, prog, pfx)
